@@ -153,6 +153,10 @@ fn rec_unit(name: &'static str, tier: Tier) -> Unit {
     Unit::Custom { name: name.to_string(), run: Box::new(move |cx| eng_rec::run(name, tier, cx)) }
 }
 
+fn nested_unit(name: &'static str, tier: Tier) -> Unit {
+    Unit::Custom { name: name.to_string(), run: Box::new(move |cx| eng_nested::run(name, tier, cx)) }
+}
+
 pub fn units(prop: &str, tier: Tier) -> Option<Vec<Unit>> {
     let q = tier == Tier::Quick;
     let pick = |a: usize, b: usize| if q { a } else { b };
@@ -300,6 +304,8 @@ pub fn units(prop: &str, tier: Tier) -> Option<Vec<Unit>> {
                 .probes(STATE)
                 .alarm(alarm)
                 .unit(),
+                // emissions made inside a nested input surface in the outer result (with_input copies them out)
+                nested_unit("nested-wide@emissions", tier),
             ]
         }
         "C06" => {
@@ -332,6 +338,8 @@ pub fn units(prop: &str, tier: Tier) -> Option<Vec<Unit>> {
                 .alarm(alarm)
                 .unit(),
             );
+            // the failure of a nested parse is merged into the outer pending error by the furthest-wins rule
+            v.push(nested_unit("nested-wide@primary", tier));
             v
         }
         "C07" => {
@@ -372,6 +380,8 @@ pub fn units(prop: &str, tier: Tier) -> Option<Vec<Unit>> {
                 class("kext-recovery-through-clone", &en::k_ext(), pick(3, 4)).alarm(alarm).clone_mode().unit(),
                 class("knd-nested-delimiters", &en::k_nd(), pick(3, 4)).alpha(&BRACKETS, pick(4, 5)).alarm(alarm).unit(),
                 e1("kext-statically-typed", "statically typed parsers: extended-class grammars (recovery, validate, labels, map_err, separators) with 2 nodes and a stride of the 3-node ones".into(), vec![]).static_set("ext").len(pick(4, 5)).alarm(alarm).unit(),
+                // recovery inside / around a nested input: the recovered error must surface
+                nested_unit("nested-wide@recovery", tier),
             ]
         }
         "C09" => eng_pratt::units(tier)
@@ -590,7 +600,7 @@ pub fn units(prop: &str, tier: Tier) -> Option<Vec<Unit>> {
                     .unit(),
             ]
         }
-        "C16" => ["nested-wide", "nested-deep"].into_iter().map(|n| Unit::Custom { name: n.to_string(), run: Box::new(move |cx| eng_nested::run(n, tier, cx)) }).collect(),
+        "C16" => vec![nested_unit("nested-wide", tier), nested_unit("nested-deep", tier)],
         "C17" => {
             let gs = en::k_core().upto(pick(3, 3));
             let wl: &dyn Fn(G) -> G = &wrap_label;
